@@ -44,20 +44,20 @@ var bigIntMutators = map[string]string{
 
 // Non-receiver parameters that are outputs.
 var outParams = map[string]map[string]string{
-	"(*BigInt).QuoRem":   {"r": "remainder out-parameter (as in math/big)"},
-	"(*BigInt).DivMod":   {"m": "modulus out-parameter (as in math/big)"},
-	"(*BigInt).GCD":      {"x": "cofactor out-parameter (as in math/big)", "y": "cofactor out-parameter (as in math/big)"},
-	"(*BigInt).inner":    {"tmp": "scratch big.Int header"},
-	"(*BigInt).innerOrNil": {"tmp": "scratch big.Int header"},
-	"(*BigInt).innerOrAlias": {"tmp": "scratch big.Int header"},
+	"(*BigInt).QuoRem":            {"r": "remainder out-parameter (as in math/big)"},
+	"(*BigInt).DivMod":            {"m": "modulus out-parameter (as in math/big)"},
+	"(*BigInt).GCD":               {"x": "cofactor out-parameter (as in math/big)", "y": "cofactor out-parameter (as in math/big)"},
+	"(*BigInt).inner":             {"tmp": "scratch big.Int header"},
+	"(*BigInt).innerOrNil":        {"tmp": "scratch big.Int header"},
+	"(*BigInt).innerOrAlias":      {"tmp": "scratch big.Int header"},
 	"(*BigInt).innerOrNilOrAlias": {"tmp": "scratch big.Int header"},
-	"(*Decimal).Modf":    {"integ": "output", "frac": "output"},
-	"(*Decimal).setBig":  {"b": "output"},
-	"upscale":            {"tmp": "scratch"},
-	"tableExp10":         {"tmp": "scratch"},
-	"exp10":              {"tmp": "scratch"},
-	"setBigWithPow":      {"res": "output"},
-	"roundAddOne":        {"b": "in-out coefficient", "diff": "in-out exponent adjustment"},
+	"(*Decimal).Modf":             {"integ": "output", "frac": "output"},
+	"(*Decimal).setBig":           {"b": "output"},
+	"upscale":                     {"tmp": "scratch"},
+	"tableExp10":                  {"tmp": "scratch"},
+	"exp10":                       {"tmp": "scratch"},
+	"setBigWithPow":               {"res": "output"},
+	"roundAddOne":                 {"b": "in-out coefficient", "diff": "in-out exponent adjustment"},
 }
 
 // Methods of Context / ErrDecimal whose first *Decimal parameter is NOT a
